@@ -42,6 +42,10 @@ pub struct Case {
     /// `undefined`); it takes no part in the rendezvous
     #[serde(default)]
     pub undefined_member: bool,
+    /// the first member of the group gets about 100 KiB of arguments from its base argmap
+    /// (more than a pipe buffer, should they travel through one)
+    #[serde(default)]
+    pub big_args: bool,
 }
 
 pub fn strategy(max_n: usize) -> impl Strategy<Value = Case> {
@@ -94,6 +98,7 @@ pub fn strategy(max_n: usize) -> impl Strategy<Value = Case> {
                 // more than a pipe buffer (64 KiB) per member; kept to small groups
                 early_output: if n <= 12 { early_output } else { 0 },
                 undefined_member: gp % 4 == 0,
+                big_args: gp % 5 == 1,
             }
         })
 }
@@ -200,6 +205,13 @@ fn attempt(case: &Case, w: usize, timeout_ms: u64) -> Result<(bool, CaseInfo, Va
         env.clear_traces();
     }
     install(&env, &beh);
+    if case.big_args && !case.shared_exe {
+        let t = cfg.target(&members[0]).expect("member");
+        let args: Vec<String> = (0..2500).map(|i| format!("generated/path/to/some/input/file-number-{:05}.txt", i)).collect();
+        let mut m = serde_json::Map::new();
+        m.insert(commands[case.barrier_cmd].clone(), json!(args));
+        env.write_file(&format!("{}/base.json", t.argmaps_dir()), serde_json::to_string(&Value::Object(m)).unwrap().as_bytes());
+    }
     env.default_timeout = std::time::Duration::from_millis(timeout_ms * 3 + 60_000);
     let mut tail = None;
     if case.listener {
@@ -239,6 +251,7 @@ fn attempt(case: &Case, w: usize, timeout_ms: u64) -> Result<(bool, CaseInfo, Va
         .class_if(case.nofile_per_member > 0, "modest-open-files-limit")
         .class_if(case.early_output > 0, "members-print-more-than-a-pipe-buffer-first")
         .class_if(undefined.is_some(), "one-member-does-not-define-the-command")
+        .class_if(case.big_args && !case.shared_exe, "one-member-gets-100KiB-of-arguments")
         .class_if(history_failures > 0 && history_failures < n, "earlier-run-failed-for-part-of-the-group")
         .inv(env.invocations);
     let obs = json!({"group": members, "timeouts": timeouts, "run": out.brief()});
